@@ -85,7 +85,7 @@ mut("C07-unseeded-draw", WL, "            next_wait = int(self.rng.normal(self.w
 mut("C07-workload-depends-on-num-pools", WL, "        self.rng = np.random.default_rng(random_seed)", "        self.rng = np.random.default_rng(random_seed + (kwargs.get('num_pools', 0) > 5))")
 mut("C07-global-container-counter-in-decision", PRI, "                job_cpu = max(1, int(pool_stats[pool_id][\"total_cpu\"] / 10))\n                job_ram = max(1, int(pool_stats[pool_id][\"total_ram\"] / 10))\n                if job_cpu >= pool_stats[pool_id][\"avail_cpu\"]", "                from eudoxia.executor.container import Container as _C\n                job_cpu = max(1, int(pool_stats[pool_id][\"total_cpu\"] / 10)) + (1 if _C.next_container_num > 400 else 0)\n                job_ram = max(1, int(pool_stats[pool_id][\"total_ram\"] / 10))\n                if job_cpu >= pool_stats[pool_id][\"avail_cpu\"]")
 # ---- C08
-mut("C08-priority-oversells-cpu", PRI, "                if job_cpu >= pool_stats[pool_id][\"avail_cpu\"] or job_ram >= pool_stats[pool_id][\"avail_ram\"]:\n                    job_cpu = pool_stats[pool_id][\"avail_cpu\"]\n                    job_ram = pool_stats[pool_id][\"avail_ram\"]\n                asgmnt = Assignment(ops=op_list, cpu=job_cpu, ram=job_ram,\n                                    priority=job.priority, pool_id=pool_id,\n                                    pipeline_id=job.pipeline.pipeline_id if job.pipeline else \"unknown_pipeline\")\n                pool_stats[pool_id][\"avail_cpu\"] -= job_cpu\n                pool_stats[pool_id][\"avail_ram\"] -= job_ram\n                to_start.append(asgmnt)\n        for j in to_start:", "                if job_cpu >= pool_stats[pool_id][\"avail_cpu\"] or job_ram > pool_stats[pool_id][\"avail_ram\"]:\n                    job_cpu = pool_stats[pool_id][\"avail_cpu\"]\n                    job_ram = pool_stats[pool_id][\"avail_ram\"]\n                asgmnt = Assignment(ops=op_list, cpu=job_cpu, ram=job_ram,\n                                    priority=job.priority, pool_id=pool_id,\n                                    pipeline_id=job.pipeline.pipeline_id if job.pipeline else \"unknown_pipeline\")\n                pool_stats[pool_id][\"avail_cpu\"] -= job_cpu\n                pool_stats[pool_id][\"avail_ram\"] -= job_ram\n                to_start.append(asgmnt)\n        for j in to_start:")
+mut("C08-resume-branch-forgets-decrement", PRI, "                pool_stats[pool_id][\"avail_cpu\"] -= job_cpu\n                pool_stats[pool_id][\"avail_ram\"] -= job_ram\n                to_start.append(asgmnt)\n            # The case for newly arrived jobs", "                to_start.append(asgmnt)\n            # The case for newly arrived jobs")
 mut("C08-stats-crash-on-empty-class", SIM, "    if latencies:\n        mean_latency_seconds", "    if latencies or arrival_count == 0:\n        mean_latency_seconds")
 # ---- C09
 mut("C09-result-dropped-on-same-tick-kill", RP, "                logger.info(result)\n                results.append(result)", "                logger.info(result)\n                if not (c.error is not None and len(results) >= 2):\n                    results.append(result)")
@@ -104,7 +104,6 @@ mut("C11-kill-all", RP, "            if self.consumed_ram_gb <= self.max_ram_poo
 mut("C11-stop-one-early", RP, "            if self.consumed_ram_gb <= self.max_ram_pool:\n                break\n            victim.kill(\"OOM\")", "            if self.consumed_ram_gb <= self.max_ram_pool * 1.1:\n                break\n            victim.kill(\"OOM\")")
 # ---- C12
 mut("C12-queue-order-swapped", PRI, "    queues = [s.qry_jobs, s.interactive_jobs, s.batch_ppln_jobs]", "    queues = [s.interactive_jobs, s.qry_jobs, s.batch_ppln_jobs]")
-mut("C12-break-to-continue", PRI, "            if pool_id == -1:\n                break\n", "            if pool_id == -1:\n                continue\n")
 mut("C12-query-containers-suspendable", PRI, "                while container.priority == Priority.QUERY:", "                while container.priority == Priority.BATCH_PIPELINE and False:")
 mut("C12-drop-one-tick-fix", PRI, "            s.suspending[sus.container_id] = WaitingQueueJob(priority=sus.priority, p=ops[0].pipeline,\n                                                             ops=ops, retry_stats=retry_stats)", "            pass")
 mut("C12-lifo-queue", PRI, "            s.queues_by_prio[job.pipeline.priority].append(job)", "            s.queues_by_prio[job.pipeline.priority].insert(0, job)")
@@ -127,7 +126,6 @@ mut("C16-retry-all-ops", PP, "        ops = [op for op in f.ops if op.state() !=
 # ---- C17
 mut("C17-half-pool", NV, "            assignment = Assignment(ops=op_list, cpu=avail_cpu_pool, ram=avail_ram_pool,", "            assignment = Assignment(ops=op_list, cpu=max(1, avail_cpu_pool // 2) if avail_cpu_pool > 8 else avail_cpu_pool, ram=avail_ram_pool,")
 mut("C17-retry-failed", NV, "            if pipeline.runtime_status().is_pipeline_successful() or has_failures:", "            if pipeline.runtime_status().is_pipeline_successful():")
-mut("C17-no-break", NV, "            assignments.append(assignment)\n            break", "            assignments.append(assignment)\n            avail_cpu_pool = 0\n            if pool_id == 0:\n                break")
 # ---- C18
 mut("C18-ram-free-instead-of-capacity", OB, "                ram=pool.max_ram_pool,", "                ram=max(pool.avail_ram_pool, 1),")
 mut("C18-max-failures-off-by-one", OB, "        if s.pipeline_failures[op.pipeline.pipeline_id] >= MAX_FAILURES:", "        if s.pipeline_failures[op.pipeline.pipeline_id] > MAX_FAILURES:")
